@@ -918,6 +918,20 @@ def _uniq(seq):
     return out
 
 
+def nullability_cross():
+    """Every structured constructor around an Optional leaf, itself in each context in which the enclosing level has or
+    has not already dealt with None (bare Optional / field with default None / required Optional field / inside a list)."""
+    out = []
+    for n in ("int", "str", "date"):
+        inner = ("opt", leaf(n))
+        for mid in wrappers(inner, "full"):
+            if mid[0] in ("opt", "optpipe", "union", "pep604", "tvconstr", "tvbound"):
+                continue
+            out += [("opt", mid), ("dc", "mixin", ((mid, "none"),)), ("dc", "plain", ((INT, "req"), (mid, "none"))),
+                    ("list", ("opt", mid)), ("dc", "mixin", ((("opt", mid), "req"),))]
+    return out
+
+
 def schemas(tier, leaves=None):
     """All descriptors of the tier, simplest first (DESIGN.md 3.2 table)."""
     leaves = list(leaves or ALL_LEAVES)
@@ -944,6 +958,7 @@ def schemas(tier, leaves=None):
             for w2 in wrappers(w1, "core"):
                 d3 += wrappers(w2, "core")
     out += d3
+    out += nullability_cross()
     if tier == "thorough":
         # depth 2 over the full leaf alphabet with core wrappers, depth 4 over {int, date} with core wrappers
         for n in leaves:
